@@ -4,6 +4,7 @@ package values
 
 import (
 	"bytes"
+	"crypto/sha1"
 	"encoding/binary"
 	"errors"
 	"fmt"
@@ -266,7 +267,8 @@ func (c *c17) pair(b pBase, x, y pMember) {
 		}
 		return
 	}
-	res.Seen("nontrivial", b.name()+"|"+x.name+"|"+y.name)
+	h := sha1.Sum([]byte(b.name() + "|" + x.name + "|" + y.name))
+	res.Seen("nontrivial", fmt.Sprintf("%x", h[:6]))
 	res.Seen("field_diffs", fd)
 	if idEq == keyEq {
 		return
